@@ -480,6 +480,20 @@ func genMsg(r *rng) []byte {
 	return b
 }
 
+// firstName: the smallest session name handed out so far (deterministic, unlike ranging over the map)
+func firstName(used map[string]bool) (string, bool) {
+	best, ok := "", false
+	for k := range used {
+		if strings.HasPrefix(k, "=") {
+			continue
+		}
+		if !ok || k < best {
+			best, ok = k, true
+		}
+	}
+	return best, ok
+}
+
 func genSid(r *rng, used map[string]bool) string {
 	const al = "ABCDEFGHIJKLMNOPQRSTUVWXYZ0123456789"
 	for {
@@ -489,28 +503,29 @@ func genSid(r *rng, used map[string]bool) string {
 			b[i] = al[r.intn(len(al))]
 		}
 		if r.chance(1, 4) && len(used) > 0 { // near-collision: extend / truncate an existing id
-			for k := range used {
+			if k, ok := firstName(used); ok && !strings.Contains(k, ".") {
+				// (names with optional components are derived below, never cut or extended)
 				if r.chance(1, 2) {
 					b = []byte(k + string(al[r.intn(len(al))]))
 				} else if len(k) > 1 {
 					b = []byte(k[:len(k)-1])
 				}
-				break
 			}
 		}
 		s := string(b)
 		if r.chance(1, 3) {
 			// sessions that differ in ONE optional component of the SessionID only (or have one where the other has none)
 			base := s
-			for k := range used {
+			if k, ok := firstName(used); ok {
 				base = strings.Split(k, ".")[0]
-				break
 			}
 			comp := r.pick([]string{"ss", "sl", "ts", "tl", "q"})
 			s = base + "." + comp + r.pick([]string{"X", "LDN", "NYC", "1"})
 		}
-		if !used[s] {
-			used[s] = true
+		// two names must be two different SessionIDs
+		canon := "=" + fmt.Sprintf("%+v", sessionIDOf(s)) // (kept in the same map under a key no name can have)
+		if !used[s] && !used[canon] {
+			used[s], used[canon] = true, true
 			return s
 		}
 	}
